@@ -36,4 +36,19 @@ PROPS = {
         "trusted": COMMON_TRUST + ["sync.Map modelled as an atomic last-writer-wins map"],
         "assumptions": ["registry histories are cumulative within the harness process; fresh prefix identifiers make each history start from an unregistered state"],
     },
+    "C16": {
+        "suites": ["b64"],
+        "level": "proof",
+        "technique": "Lean 4 proof over kernels regenerated from base64le.go (OR-decomposition of the shift/mask expressions + exhaustive per-byte kernel evaluation + induction over 3-byte groups and over the three decode loops) + Go/Lean/bit-level-reference correspondence",
+        "claim": "Kernel-checked for ALL byte strings and every padding/strict mode: Encode = the bit-level definition (symbols are successive 6-bit groups of b0|b1<<8|b2<<16), "
+                 "every alphabet index < 64, length arithmetic, decodeMap inverts the alphabet, the 64-bit/32-bit/per-quantum decode paths compute the same bytes, "
+                 "Decode(Encode(x)) = x on the faithful three-loop model, corrupt/strict rejections at quantum level, the exported encodings' alphabets and no-padding (facts regenerated from source). "
+                 "The shift/mask expressions are regenerated from the Go source on every run; the loop structure is hand-modelled and tied by differential runs.",
+        "note": "Trusted: gogen's expression translator; loop structure of Encode/Decode tied by correspondence only; malformed-text characterisation beyond the quantum level is sampled, not proved.",
+        "rule": "b64: EncodedLen/DecodedLen for n ≤ 300; all 256 one-byte tails, two-byte tails (all 65536 at thorough), 2^16 (quick) / 2^21 (thorough) random three-byte groups, "
+                "random strings up to 4096 bytes in four modes decoded into buffers of five sizes (8-symbol, 4-symbol and quantum paths counted), random symbol quanta with injected bad symbols/padding/newlines, single edits of valid encodings; "
+                "Go vs Lean model, plus Go vs an independent bit-level reference encoder and Decode∘Encode = id directly on Go; non-trivial/distinct = distinct one-/two-byte tails and random strings",
+        "trusted": COMMON_TRUST + ["Go's encoding/base64 (BigEndianEncoding, bcrypt.Encoding) is stdlib and only observed"],
+        "assumptions": ["EncodedLen/DecodedLen arithmetic is modelled over Nat (no int overflow for inputs below 2^60 bytes)"],
+    },
 }
